@@ -7,6 +7,7 @@
 //!               form 0 [Vec;2], 1 (Vec,Vec), 2 [Bitstring;2], 3 (Bitstring,Bitstring); observation as above (child = mask)
 //!   kind 11: UniformXo on LONG complementary parents, seen through a few positions  [11, [], [], form, len, [positions], seed, draws]
 //!               observation [0, [[mask at the positions, count]...]]
+//!   kind 12/13: TwoPointXo / UniformXo on [Vec<u8>;2];  14/15: on (Vec<String>, Vec<String>)   (rest and observation as 0..5)
 //!   kind 6: Bitstring::crossover_gene(a, b, i);  kind 7: crossover_segment(a, b, lo..hi)
 //!               observation [0, a', b'] | [1, a', b'] (error; genomes afterwards)
 use std::collections::BTreeMap;
@@ -99,6 +100,24 @@ fn run(input: &Tree) -> Option<Tree> {
             _ => draws(n, seed, |r| UniformXo.recombine((bits(&za), bits(&ob)), r).map(b2v).map(proj)),
         });
     }
+    if (12..=15).contains(&kind) {
+        // the vector impls are generic in the gene type: bytes and heap-allocated strings
+        let seed = l.get(3)?.u64()?;
+        let n = l.get(4)?.usize()?;
+        if n == 0 || l.len() != 6 || pa.iter().chain(pb.iter()).any(|x| !(0..=255).contains(x)) {
+            return None;
+        }
+        let bytes = |v: &[i64]| v.iter().map(|x| *x as u8).collect::<Vec<u8>>();
+        let strs = |v: &[i64]| v.iter().map(|x| format!("gene {x}")).collect::<Vec<String>>();
+        let unb = |c: Vec<u8>| c.into_iter().map(i64::from).collect::<Vec<i64>>();
+        let uns = |c: Vec<String>| c.into_iter().map(|s| s[5..].parse::<i64>().unwrap_or(-1)).collect::<Vec<i64>>();
+        return Some(match kind {
+            12 => draws(n, seed, |r| TwoPointXo.recombine([bytes(&pa), bytes(&pb)], r).map(unb)),
+            13 => draws(n, seed, |r| UniformXo.recombine([bytes(&pa), bytes(&pb)], r).map(unb)),
+            14 => draws(n, seed, |r| TwoPointXo.recombine((strs(&pa), strs(&pb)), r).map(uns)),
+            _ => draws(n, seed, |r| UniformXo.recombine((strs(&pa), strs(&pb)), r).map(uns)),
+        });
+    }
     if (kind % 3 == 2 || kind >= 6) && !(bitlike(&pa) && bitlike(&pb)) {
         return None;
     }
@@ -153,6 +172,14 @@ fn gen(tier: &str, rng: &mut Sm) -> Gen {
             // coverage of the whole support is demanded where the rarest child has probability >= 1/64
             let cover = if kind < 3 { 1 } else { i128::from(len <= 5) };
             g.inputs.push(tl![A(kind), tv(x), tv(y), a(rng.next() >> 1), au(n), A(cover)]);
+        }
+        // byte and string genes through the generic vector impls (tagged parents, also of different lengths)
+        for kind in 12..16i128 {
+            let cover = if kind % 2 == 0 { 1 } else { i128::from(len <= 5) };
+            g.inputs.push(tl![A(kind), tv(&pa), tv(&pb), a(rng.next() >> 1), au(n), A(cover)]);
+            let mut longer = pb.clone();
+            longer.push(7);
+            g.inputs.push(tl![A(kind), tv(&pa), tv(&longer), a(rng.next() >> 1), A(20), A(0)]);
         }
         // the tuple form of the Bitstring impls
         for kind in [8i128, 9] {
